@@ -31,7 +31,7 @@ def run_one(e, harmless):
         ev = os.path.join(d, ".evidence")
         r = subprocess.run([VERIF + "/bin/verif", "check", prop], env=dict(ENV, VERIF_REPO=d, VERIF_EVIDENCE_DIR=ev), capture_output=True, text=True, timeout=900)
         out = r.stdout
-        viol = [l for l in out.splitlines() if l.startswith(("VIOLATION", "failed obligation", "bounded C20 failure", "scenario "))]
+        viol = [l for l in out.splitlines() if l.startswith(("VIOLATION", "failed obligation", "bounded C", "scenario "))]
         if harmless:
             ok = r.returncode == 0
             return (mid, prop, "OK" if ok else "FALSE-ALARM", "" if ok else "\n".join(out.splitlines()[-6:]))
